@@ -185,7 +185,7 @@ def classify(js, out, hname):
         res["status"], res["reason"] = "FAIL", real[0]["description"] or ""
         res["failed"] = real + [f for f in res["failed"] if f not in real]
     elif failed:
-        res["reason"] = "tool limit: " + "; ".join(sorted(set(str(f["description"])[:80] for f in res["failed"])))[:300]
+        res["reason"] = "tool limit: " + "; ".join(sorted(set("%s in %s" % (str(f["description"])[:60], str(f["function"])[-60:]) for f in res["failed"])))[:400]
     elif undet:
         res["reason"] = "undetermined checks (upstream unwinding / unsupported construct)"
     else:
